@@ -19,6 +19,9 @@ def main():
     tier = "quick"
     if "--tier" in args:
         i = args.index("--tier"); tier = args[i + 1]; del args[i:i + 2]
+    also = []
+    if "--also" in args:
+        i = args.index("--also"); also = args[i + 1].split(","); del args[i:i + 2]
     allc = "--all-checks" in args
     if allc:
         args.remove("--all-checks")
@@ -37,7 +40,8 @@ def main():
             if rc != 0:
                 print(key, "PATCH DOES NOT APPLY", o[:200]); missed.append(key); continue
             env = dict(os.environ, VERIF_REPO=WT)
-            checks = [pid] + ([c for c in ["C%02d" % i for i in range(1, 21)] if c != pid] if allc else [])
+            checks = [pid] + ([c for c in ["C%02d" % i for i in range(1, 21)] if c != pid] if allc else
+                              [c for c in also if c != pid])
             det = {}
             for c in checks:
                 t0 = time.time()
@@ -47,10 +51,14 @@ def main():
                     det[c] = {"seconds": round(time.time() - t0), "message": msg[0][:300] if msg else ""}
                 elif rc != 0:
                     det[c] = {"seconds": round(time.time() - t0), "message": "HARNESS-ERROR (rc=%d)" % rc, "error": True}
+            if also and not allc:
+                prev = meta.get("detected_by_%s_checks" % tier, {})
+                prev.update(det)
+                det = prev
             meta["detected_by_%s_checks" % tier] = det
             meta["detection_run"] = {"tier": tier, "checks_run": checks, "repo_head": os.popen("git -C /repo rev-parse --short HEAD").read().strip()}
             json.dump(meta, open(os.path.join(d, "meta.json"), "w"), indent=1)
-            ok = pid in det and not det[pid].get("error")
+            ok = any(not x.get("error") for x in det.values()) if also else (pid in det and not det[pid].get("error"))
             if not ok:
                 missed.append(key)
             print("%-6s %-8s %s" % (key, "DETECTED" if ok else "MISSED", {c: x["seconds"] for c, x in det.items()}),
